@@ -280,7 +280,7 @@ def run(ctx, chk):
     if nloops == 0:
         chk.undecided_("C20.R1", "read-loops", "no loop containing read_line found in the binary crate")
     # ---------------- R2: prompt words
-    ui = P.by_name.get(("bin", "driver::user_interface::user_interface"))
+    ui = P.find("bin", "driver::user_interface::user_interface")
     if ui is None:
         chk.undecided_("C20.R2", "user_interface", "function not found")
     else:
@@ -363,7 +363,7 @@ def run(ctx, chk):
                 chk.violation("C20.R2", "user_interface", "print-then-" + "+".join(sorted(k - {"loop"})),
                               f"after a print command (or invalid input) the prompt can {sorted(k - {'loop'})} instead of asking again", f"{where}:{line_of(ui, bi)}")
     # ---------------- R3/R4/R5: driver
-    drv = P.by_name.get(("bin", "driver::driver::CMDDriver::run"))
+    drv = P.find("bin", "driver::driver::CMDDriver::run")
     if drv is None:
         for r in ("C20.R3", "C20.R4", "C20.R5"):
             chk.undecided_(r, "CMDDriver::run", "driver not found")
